@@ -1286,6 +1286,16 @@ class Engine:
             self.store(st, ptr, z3.simplify(newv()), ty, mod, self.where(fr, ins))
             env[ins.dst] = oldv
             return
+        if op == 'cmpxchg':
+            # sequential semantics (no other thread): {old value, old == expected}; stores the new value on success
+            pty, p, ty, c, n = a
+            ptr = self.val(st, p, pty, mod)
+            oldv = self.load(st, ptr, ty, mod, self.where(fr, ins))
+            cv, nv = self.val(st, c, ty, mod), self.val(st, n, ty, mod)
+            ok = oldv == cv
+            self.store(st, ptr, z3.simplify(z3.If(ok, nv, oldv)), ty, mod, self.where(fr, ins))
+            env[ins.dst] = [oldv, z3.If(ok, z3.BitVecVal(1, 1), z3.BitVecVal(0, 1))]
+            return
         if op == 'unreachable':
             return ('dead',)
         if op == 'extractvalue':
